@@ -426,6 +426,11 @@ static void runMessage(Ctx &c, const GMsg &g, const QByteArray &key, bool fp, in
             // theorem tamper_rejected_by_authenticated_decode: accepted AND MESSAGE-INTEGRITY present is impossible
             if (miPos >= 0 && byte < miPos + 24 && hasMI(f)) { stat("bitflip-accepted-with-integrity"); ofail("C14:bitflip-accepted:authenticated", frep); continue; }
             if (miPos >= 0 && byte < miPos + 24) stat("bitflip-accepted-but-no-integrity-attribute(authenticated decode rejects)");
+            // with a key: Error / Indication packets may come without MESSAGE-INTEGRITY by RFC (exempt in fixes/C14-bitflip-accepted-v2.diff);
+            // for Request / Response packets the accept is the defect that diff repairs
+            const bool exempt = miPos >= 0 && (fm.messageClass() == QXmppStunMessage::Error || fm.messageClass() == QXmppStunMessage::Indication);
+            if (miPos >= 0) stat(exempt ? "bitflip-accepted-class-error-or-indication" : "bitflip-accepted-class-request-or-response");
+            if (exempt && byte >= 20 && isLenField[size_t(byte)] && byte < miPos) { ofail("C14:bitflip-accepted:error-or-indication", frep + " (attribute length field swallows MESSAGE-INTEGRITY; class " + std::to_string(fm.messageClass()) + " is accepted without it)"); continue; }
             if (byte >= 20 && isLenField[size_t(byte)] && byte < (miPos >= 0 ? miPos : fpPos)) ofail("C14:bitflip-accepted", frep + " (attribute length field: the walk never reaches MESSAGE-INTEGRITY/FINGERPRINT)");
             else ofail("C14:bitflip-accepted:not-a-length-field", frep);
         }
@@ -528,6 +533,8 @@ int main(int argc, char **argv) {
         GMsg g0; g0.type = 1; g0.username = QByteArray("");
         runMessage(c, g0, QByteArray(1, char(1)), true, 1);
         runMessage(c, g0, QByteArray("secret"), true, 1);
+        { GMsg gi = g0; gi.type = 0x0011; runMessage(c, gi, QByteArray("secret"), true, 1); }   // Binding indication: exempt class
+        { GMsg ge = g0; ge.type = 0x0111; runMessage(c, ge, QByteArray("secret"), true, 1); }   // Binding error response: exempt class
         // setData with 70000 bytes: the 16-bit lengths wrap, the packet is not decodable (theorem C14_defect_oversized_not_decodable)
         for (int n : { 70000, 65532 }) {
             corr("reset", "ok");
